@@ -387,7 +387,9 @@ class Session:
                 recv = self.real(op["parent"])
             if op.get("node_id") is not None:
                 kw["node_id"] = op["node_id"]
-            outcome = m.add_node(P_, src, bool(op.get("deep")), bm, None, node_id=op.get("node_id"))
+            if self.typed and op.get("kind") is not None:
+                kw["kind"] = op["kind"]
+            outcome = m.add_node(P_, src, bool(op.get("deep")), bm, op.get("kind") if self.typed else None, node_id=op.get("node_id"))
             call = lambda: getattr(recv, via)(self.bind[op["src"]], deep=op.get("deep"), **kw)
         elif k == "addnode":
             P_ = self.mnode(op["parent"])
@@ -1046,6 +1048,10 @@ def _gen_kind(s, rng, k, nodes, hostile, allow_unspec):
             # the kind-less routes (add(node) without kind=, copy_to) are a listed C07 finding
             op["via"] = "add"
             op["kind"] = rng.choice([src.kind, src.kind, "kc"])
+            if p != ROOT and rng.random() < 0.25:
+                # the typed twins of the child shortcuts, kind stated
+                op = {"op": "addnode", "via": rng.choice(["append_child", "prepend_child"]), "parent": p, "src": src.uid, "deep": deep,
+                      "kind": op["kind"]}
         elif rng.random() < 0.25:
             # shortcut routes with a node as source
             via = rng.choice(["append_sibling", "prepend_sibling", "append_child", "prepend_child"])
